@@ -88,6 +88,13 @@ def related(rnd, shape, mode):
         if rnd.random() < 0.3:
             a = rnd.choice([0, math.pi / 2, math.pi, 3 * math.pi / 2])
         return ("circ", [cx + dist * math.cos(a), cy + dist * math.sin(a), r2])
+    if rnd.random() < 0.35:
+        # rectangle spanned by two arbitrary points of the disc: its other two corners may well be outside
+        pts = []
+        for _ in range(2):
+            a, q = rnd.uniform(0, 2 * math.pi), r * math.sqrt(rnd.random()) * rnd.choice([1, 1, 0.999])
+            pts.append((cx + q * math.cos(a), cy + q * math.sin(a)))
+        return ("rect", [pts[0][0], pts[0][1], pts[1][0], pts[1][1]])
     # inscribed rectangle (corners on the circle for Pythagorean ratios)
     f = rnd.choice([(0.6, 0.8), (0.8, 0.6), (5 / 13.0, 12 / 13.0), (math.sqrt(0.5), math.sqrt(0.5)), (0.5, 0.5), (0.3, 0.2)])
     s = rnd.choice([1.0, 1.0, 1 - 1e-9, 1 + 1e-9, 0.5, 1 + abs(d)])
